@@ -28,7 +28,14 @@ fn sc(tag: &str, cfg: &EwCfg, script: Vec<EwOp>, env: EwEnv, d: usize, oracles: 
 
 /// Own scenarios plus the scenarios of the other endpoint-world families run with this property's oracle.
 fn assemble(own: Vec<EwSpec>, custom: Vec<Scenario>, quick: bool, me: &str, mask: u32) -> Vec<Scenario> {
-    let mut scs: Vec<Scenario> = own.into_iter().map(ew_scenario).collect();
+    // handshake error events are off in the default server configuration: the handshake-heavy families run both ways
+    let he0 = |sp: &EwSpec| -> Option<EwSpec> {
+        if sp.cfg.handshake_errors && ["full-server", "config.", "version", "overlap", "handshake-fates-full", "ending.vanish", "C10.handshake"].iter().any(|t| sp.tag.contains(t)) {
+            let mut x = sp.clone(); x.cfg.handshake_errors = false; x.tag = format!("{}.he0", x.tag); Some(x)
+        } else { None }
+    };
+    let extra: Vec<EwSpec> = own.iter().filter_map(|s| he0(s)).collect();
+    let mut scs: Vec<Scenario> = own.into_iter().chain(extra.into_iter()).map(ew_scenario).collect();
     scs.extend(custom);
     for (fam, f) in [("C07", c07_specs as fn(bool) -> Vec<EwSpec>), ("C08", c08_specs), ("C09", c09_specs), ("C10", c10_specs), ("C17", c17_specs)] {
         if fam == me { continue; }
@@ -36,6 +43,7 @@ fn assemble(own: Vec<EwSpec>, custom: Vec<Scenario>, quick: bool, me: &str, mask
             // the timer grid of C10 is large and only interesting to the timer oracle; the others take a cross-section of it
             if fam == "C10" && !(sp.tag.contains("handshake") || sp.tag.contains("blackout")) { continue; }
             sp.oracles = mask; sp.tag = format!("{}.pool.{}", me, sp.tag);
+            if let Some(x) = he0(&sp) { scs.push(ew_scenario(x)); }
             scs.push(ew_scenario(sp));
         }
     }
@@ -271,6 +279,31 @@ pub fn c17_parts(quick: bool) -> (Vec<EwSpec>, Vec<Scenario>) {
             }
         }
     }
+    // handshakes abandoned half-way (the client vanishes after its SYN) must release their slot when the SYN-ACK retry budget is spent,
+    // with handshake error reporting on and off (off is the default configuration)
+    for he in [true, false] {
+        for (ma, mt) in [(1usize, 1usize), (1, 2), (2, 2)] {
+            let mut cfg = EwCfg::new(4); cfg.max_active = ma; cfg.max_total = mt; cfg.handshake_errors = he;
+            for c in cfg.clients.iter_mut() { c.active_timeout_ms = 3000; } cfg.server.active_timeout_ms = 3000;
+            let mut script = vec![at(0, Act::Connect(0)), at(1, Act::Forget(0)), at(0, Act::Connect(1)), at(2, Act::Forget(1)), at(3, Act::Connect(2)), after_c(2, 2, Act::CSend(2, 0, SendMode::Reliable, 50)), after_c(2, 4, Act::CDisconnectNow(2))];
+            script.push(at(8 + 140, Act::Connect(3)));
+            let mut env = EwEnv::basic(5, 8 + 140 + 30);
+            env.fates = DF_LOSS; env.fate_types = &[0, 1, 2, 4, 5]; env.deltas = &[100, 2000]; env.fair_delta = 500; env.stop_when_done = false;
+            scs.push(sc(&format!("C17.ending.abandoned-handshake.he{}", he as u8), &cfg, script, env, if quick { 1 } else { 2 }, EO_C17 | EO_READMIT));
+        }
+    }
+    // a connection the application has asked to close (flushing disconnect) stays established while its outbound data is unacknowledged:
+    // the peer has vanished, so it holds its slot until the active time-out; a newcomer in that window must be refused, a later one admitted
+    for (ma, mt) in [(1usize, 1usize), (1, 2), (2, 2)] {
+        let mut cfg = EwCfg::new(4); cfg.max_active = ma; cfg.max_total = mt;
+        for c in cfg.clients.iter_mut() { c.active_timeout_ms = 3000; } cfg.server.active_timeout_ms = 3000;
+        let mut script = vec![at(0, Act::Connect(0)), after_s(0, 1, Act::SSend(0, 0, SendMode::Reliable, 5000)), after_s(0, 1, Act::SDisconnect(0)), after_s(0, 1, Act::Forget(0)), after_s(0, 2, Act::Connect(1)), after_s(0, 4, Act::Connect(2))];
+        if ma == 2 { script.push(at(0, Act::Connect(3))); }
+        script.push(at(8 + 140, Act::Connect(0)));
+        let mut env = EwEnv::basic(if quick { 6 } else { 9 }, 8 + 140 + 30);
+        env.fates = DF_BASIC; env.fate_types = &[0, 1, 2, 4, 5]; env.deltas = &[100, 2000]; env.fair_delta = 500; env.stop_when_done = false;
+        scs.push(sc("C17.flushing-disconnect-holds-slot", &cfg, script, env, if quick { 1 } else { 2 }, EO_C17 | EO_READMIT));
+    }
     // a client disconnects and reconnects from the same address while the server's closed entry still lingers (20 s); later, when the
     // old entry's time-out has fired, another client asks for the last free slot
     for (ma, mt) in [(1usize, 1usize), (1, 2), (2, 2)] {
@@ -482,6 +515,19 @@ pub fn c09_parts(quick: bool) -> (Vec<EwSpec>, Vec<Scenario>) {
                 envb.dev_start = 4; envb.fates = DF_NONE; envb.deltas = &[100]; envb.fair_delta = 500; envb.blackouts = &[1, 2, 3];
                 scs.push(sc(&format!("C09.blackout.{}.{}{}", lname, if who == 0 { "client" } else { "server" }, if now { "-now" } else { "" }), &cfg, script, envb, 1, EO_C09 | EO_C08));
             }
+        }
+    }
+    // both applications close at (nearly) the same time: the two disconnect requests cross, in every combination of flushing / immediate
+    for (sname, c_at, s_at) in [("same-round", 4usize, 4usize), ("server-first", 5, 4), ("client-first", 4, 5), ("server-two-ahead", 6, 4)] {
+        for (cnow, snow) in [(false, false), (true, true), (false, true), (true, false)] {
+            if quick && cnow != snow && sname != "same-round" { continue; }
+            let cfg = EwCfg::new(1);
+            let mut script = vec![at(0, Act::Connect(0)), after_c(0, 1, Act::CSend(0, 5, Reliable, 10)), after_s(0, 1, Act::SSend(0, 5, Reliable, 11)), after_c(0, c_at, Act::CSend(0, 0, Reliable, 300)), after_s(0, s_at, Act::SSend(0, 0, Reliable, 2000))];
+            script.push(after_c(0, c_at, if cnow { Act::CDisconnectNow(0) } else { Act::CDisconnect(0) }));
+            script.push(after_s(0, s_at, if snow { Act::SDisconnectNow(0) } else { Act::SDisconnect(0) }));
+            let mut env = EwEnv::basic(if quick { 6 } else { 9 }, 140);
+            env.dev_start = 4; env.fates = DF_BASIC; env.deltas = &[100, 2000]; env.fair_delta = 500;
+            scs.push(sc(&format!("C09.crossing.{}.c{}s{}", sname, if cnow { "-now" } else { "" }, if snow { "-now" } else { "" }), &cfg, script, env, d, EO_C09 | EO_C08));
         }
     }
     (scs, custom)
